@@ -249,6 +249,8 @@ def _arith_case(draw):
     profile = draw(st.sampled_from(['mixed', 'mixed', 'frames']))
     if form == 'bin':
         ops = _ensure_ts(draw, _operands(draw, 2, ctx, profile=profile), ctx)
+        if op == 'div_' and ops[0]['k'] != 'c' and draw(st.integers(0, 5)) == 0:
+            ops[1] = dict(k='c', v=draw(st.sampled_from([0, 0.0])))          # the scalar zero divisor
         return dict(op=op, join=join, columns=columns, form=form, lhs=[ops[0]], rhs=[ops[1]], lhs_list=False, rhs_list=False)
     n = draw(st.integers(2, 4))
     # the column sets of the frames of one reduced list are free: lists whose intermediate result has fewer than two columns
@@ -871,7 +873,7 @@ _COMMON_RULE = ('operands: float/int Series and 2-3 column frames (names over {a
                 'operands must be unchanged after the call. ')
 
 SUBS = [
-    Sub('arith', lambda tier: _arith_case(), run_arith, quick=2400, thorough=20000,
+    Sub('arith', lambda tier: _arith_case(), run_arith, quick=2000, thorough=20000,
         rule='add_/sub_/mul_/div_ on 2-4 operands; index policies x column policies; forms op(a,b), op([..]), op([..],[..]); ' + _COMMON_RULE +
              'oracle: per-timestamp dictionary model folded left to right, neutral element for one-sided columns, zero divisor -> NaN and no inf, op(a,b)==op(b,a) for add_/mul_. '
              'non-trivial = partially overlapping indices with a NaN or 0 inside the overlap, or frames with differing column sets',
@@ -879,17 +881,17 @@ SUBS = [
                                  'series_with_frame': 0.1, 'scalar': 0.15, 'empty_operand': 0.04, 'disjoint_indices': 0.05,
                                  'long': 0.06, 'long_with_short': 0.02, 'long_with_long': 0.02, 'fingerprint_indices': 0.03, 'prefix_column_names': 0.05,
                                  'same_columns_other_order': 0.015, 'falsy_scalar': 0.03, 'inexact_values': 0.08, 'spelled_out_policy': 0.2,
-                                 'empty_in_the_middle': 0.004}),
-    Sub('cmp_pow', lambda tier: _cmp_case(), run_cmp_pow, quick=1200, thorough=10000,
+                                 'empty_in_the_middle': 0.004, 'zero_scalar_divisor': 0.005}),
+    Sub('cmp_pow', lambda tier: _cmp_case(), run_cmp_pow, quick=1000, thorough=10000,
         rule='pow_ (exponents 0..3, 0.5, NaN) and gt_/ge_/lt_/le_ on two operands; ' + _COMMON_RULE + 'oracle: the same alignment model with '
              'math.pow / Python comparisons; cells of one-sided columns under columns=oj are not judged. non-trivial as in arith',
         floor=0.2, class_floors={'both_outcomes': 0.15, 'partial_overlap': 0.2, 'op=pow_': 0.2, 'long': 0.06, 'fingerprint_indices': 0.01, 'spelled_out_policy': 0.2}),
-    Sub('minmax', lambda tier: _minmax_case(), run_minmax, quick=1200, thorough=10000,
+    Sub('minmax', lambda tier: _minmax_case(), run_minmax, quick=1000, thorough=10000,
         rule='min_/max_ on 2-4 operands (frames of one case have one column set), forms (a,b), ([..]), ([..],[..]); ' + _COMMON_RULE + 'oracle: NaN-propagating '
              'min/max on the aligned cells. non-trivial = partially overlapping indices with a NaN or 0 inside the overlap',
         floor=0.2, class_floors={'partial_overlap': 0.25, 'series_with_frame': 0.1, 'long': 0.06, 'fingerprint_indices': 0.03, 'same_columns_other_order': 0.05,
                                  'spelled_out_policy': 0.2}),
-    Sub('agg', lambda tier: _agg_case(), run_agg, quick=1200, thorough=10000,
+    Sub('agg', lambda tier: _agg_case(), run_agg, quick=1000, thorough=10000,
         rule='df_sum/df_mean/df_count on 2-4 Series or 2-4 multi-column frames (column sets may differ), default policies; ' + _COMMON_RULE + 'oracle: union index, '
              'sum/mean over the non-NaN operands, count of them, NaN (count 0) where none. non-trivial as in arith',
         floor=0.3, class_floors={'cell_without_data': 0.3, 'cell_with_data': 0.5, 'differing_columns': 0.1, 'long': 0.06, 'fingerprint_indices': 0.05}),
